@@ -218,6 +218,47 @@ Theorem C08_repair_changes_nothing_else : forall (St : Type) (sweep normalise : 
 Proof. exact cp_run_same. Qed.
 Print Assumptions C08_repair_changes_nothing_else.
 
+(* ---- the drivers whose scale goes to the core (non_negative_tucker, non_negative_tucker_hals) and parafac2.
+   As the code is, normalize_factors = True is honoured only under the named hypotheses (known findings
+   nn_tucker_convergence_exit, nn_tucker_cap0, parafac2_cap0); the skeletons of the candidate repair satisfy the contract
+   for every decision sequence and every cap. *)
+Theorem C08_nn_tucker_normalised_partial : forall (St : Type) (sweep normalise : St -> St) (Normalised : St -> Prop),
+  (forall s, Normalised (normalise s)) ->
+  forall tol_set n decisions s0, no_convergence_exit tol_set decisions -> 0 < n ->
+  Normalised (nt_run St sweep normalise true tol_set n decisions s0).
+Proof. exact nt_run_normalised. Qed.
+Print Assumptions C08_nn_tucker_normalised_partial.
+Theorem C08_nn_tucker_normalised_small_cap_partial : forall (St : Type) (sweep normalise : St -> St) (Normalised : St -> Prop),
+  (forall s, Normalised (normalise s)) ->
+  forall tol_set n decisions s0, 0 < n -> n <= 2 ->
+  Normalised (nt_run St sweep normalise true tol_set n decisions s0).
+Proof. exact nt_run_normalised_small_cap. Qed.
+Print Assumptions C08_nn_tucker_normalised_small_cap_partial.
+Theorem C08_nn_tucker_normalised_refuted :
+  (forall tol_set decisions, ghost_nt tol_set 0 decisions = false) /\
+  (forall n, ghost_nt true (S (S (S n))) [false; false; true] = false).
+Proof. exact (conj ghost_nt_cap0 ghost_nt_convergence). Qed.
+Print Assumptions C08_nn_tucker_normalised_refuted.
+Theorem C08_parafac2_normalised_partial : forall (St : Type) (sweep normalise : St -> St) (Normalised : St -> Prop),
+  (forall s, Normalised (normalise s)) ->
+  forall tol_set n decisions s0, 0 < n ->
+  Normalised (p2_run St sweep normalise true tol_set n decisions s0).
+Proof. exact p2_run_normalised. Qed.
+Print Assumptions C08_parafac2_normalised_partial.
+Theorem C08_parafac2_normalised_refuted : forall tol_set decisions, ghost_p2 tol_set 0 decisions = false.
+Proof. exact ghost_p2_cap0. Qed.
+Print Assumptions C08_parafac2_normalised_refuted.
+Theorem C08_nn_tucker_fix_normalised : forall (St : Type) (sweep normalise : St -> St) (Normalised : St -> Prop),
+  (forall s, Normalised (normalise s)) ->
+  forall tol_set n decisions s0, Normalised (nt_run_fix St sweep normalise true tol_set n decisions s0).
+Proof. exact nt_run_fix_normalised. Qed.
+Print Assumptions C08_nn_tucker_fix_normalised.
+Theorem C08_parafac2_fix_normalised : forall (St : Type) (sweep normalise : St -> St) (Normalised : St -> Prop),
+  (forall s, Normalised (normalise s)) ->
+  forall tol_set n decisions s0, Normalised (p2_run_fix St sweep normalise true tol_set n decisions s0).
+Proof. exact p2_run_fix_normalised. Qed.
+Print Assumptions C08_parafac2_fix_normalised.
+
 (* ================================================================== canonical form over R *)
 Local Open Scope R_scope.
 
@@ -292,3 +333,14 @@ Print Assumptions C08_cp_normalize_weights_nonneg.
 Theorem C08_cp_normalize_shapes : forall w fs, map rows (snd (cp_normalize w fs)) = map rows fs.
 Proof. exact cp_normalize_shapes. Qed.
 Print Assumptions C08_cp_normalize_shapes.
+
+(* tucker_normalize: the scale goes to the core -- every term core[j] * prod_k U_k[i_k, j_k] of every entry is unchanged --
+   and every returned factor column has unit norm or is zero *)
+Theorem C08_tucker_normalize_represents : forall core fs idx jdx, in_bounds fs idx -> length jdx = length fs ->
+  let '(core', fs') := tucker_normalize core fs in core' jdx * tterm fs' idx jdx = core jdx * tterm fs idx jdx.
+Proof. exact tucker_normalize_represents. Qed.
+Print Assumptions C08_tucker_normalize_represents.
+Theorem C08_tucker_normalize_unit_columns : forall core fs j f', In f' (snd (tucker_normalize core fs)) ->
+  colnorm2 (rows f') (ent f') j = 1 \/ (forall i, (i < rows f')%nat -> ent f' i j = 0).
+Proof. exact tucker_normalize_unit_columns. Qed.
+Print Assumptions C08_tucker_normalize_unit_columns.
